@@ -7,7 +7,9 @@ func init() {
 		ID: "C02",
 		Profile: func(tier string, r *Rng) Profile {
 			p := Profile{Name: "c02-hostile", MinTx: 2, MaxTx: 7, Equivocate: 0.01, Hostile: 0.25, VoteFault: 0.08, GapBig: 0.08, Gov: true, GovHalt: true}
-			switch r.Pick(5) {
+			switch r.Pick(6) {
+			case 5: // a snapshot limit of 1 and bursts of withdrawals / attestation requests in one block
+				p.Fragments = []string{"lowSnapshotLimit"}
 			case 4: // the team votes on a dispute and then hands its role on before the vote ends
 				p.Fragments = []string{"teamRotation"}
 			case 0: // time-based rewards flowing, two deposit rounds closing together
